@@ -134,3 +134,77 @@ func VerifC02_run() {
 	vAssert(vAnd(vIsClosed(d.output), vIsClosed(d.err), len(d.err) == 0), "C07: normal termination closes output and err without an error value")
 	vAssert(vTickerStops() == 1, "C19: the interrupter is stopped")
 }
+
+// C15 / C19: a run from New in which the divider (a sum-preserving function up to then) breaks the
+// sum rule at one later call. Nobody reads Err() before Output() is closed (reading it afterwards is
+// the documented pattern): the discipline must stop handing out, wait for the releases, close its
+// channels and leave exactly ErrDividerBad on Err().
+// gosym: mode=int
+func VerifC15_run_fault() {
+	n := vParam("n", 2)
+	H := uint(vParam("H", 2))
+	J := vParam("J", 1)
+	e := &vEnv{n: n, faultAt: -1, H: H, honest: true}
+	vE = e
+	all := make([]uint, 0, n+1)
+	for i := 0; i < n+1; i++ {
+		all = append(all, vNondetUint("p"))
+	}
+	vDistinct(all...)
+	for i := 1; i < n; i++ {
+		vAssume(all[i-1] > all[i])
+	}
+	e.ps, e.foreign = all[:n], all[n]
+	inputs := map[uint]<-chan int{}
+	for i := 0; i < n; i++ {
+		ch := make(chan int, J+1)
+		e.ins = append(e.ins, ch)
+		inputs[e.ps[i]] = ch
+		for k := 0; k < J; k++ {
+			ch <- vNondetInt("item")
+		}
+		if vChoose("closed", 2) == 1 {
+			close(ch)
+		}
+	}
+	e.faultAt = 1 + vChoose("fault", 3) // call 0 is the constructor's division
+	d, err := New(Opts[int]{Divider: vStubDivider, HandlersQuantity: H, Inputs: inputs})
+	if err != nil {
+		vExpect("NOREACH", "ok")
+		return
+	}
+	e.d = d
+	e.G = make([]uint, n)
+	vSink(d.output)
+	e.monitors()
+	vOnBlock(d.feedback, func() {
+		if vSumAssert("in flight", e.G...) == 0 {
+			vDecline() // nothing left to release
+			return
+		}
+		i := vChoose("release", e.n)
+		vAssume(e.G[i] >= 1)
+		d.feedback <- e.ps[i]
+	})
+	vTickBudget(6)
+	vFairTicks()
+	vSleepBudget(3)
+	vExpect("HORIZON", "ok")
+	vExpect("TICK-HORIZON", "ok")
+	vExpect("BLOCKED", "fail:C15/C19: after a divider fault the discipline terminates once the in-flight items are released, whether or not Err() is being read")
+	vTermWatch(d.output, d.err)
+	vRunSpawned(0)
+	vRunLeftoverSpawned()
+	vReach("terminated")
+	if e.faultSeen {
+		vAssert(e.sendsAfterFault == 0, "C15: nothing is handed out after a divider fault")
+		vAssert(vAnd(vIsClosed(d.output), vIsClosed(d.err)), "C15/C19: error termination closes output and err")
+		vAssert(len(d.err) == 1, "C15: exactly one error value is left on Err()")
+		v, ok := <-d.err
+		vAssert(vAnd(ok, v == ErrDividerBad), "C15: the reported error is ErrDividerBad")
+		g := vSumAssert("in flight at termination", e.G...)
+		vAssert(g == 0, "C15: the discipline terminates only after the in-flight items were released")
+		vReach("fault")
+	}
+	vAssert(vTickerStops() == 1, "C19: the interrupter is stopped")
+}
